@@ -212,7 +212,7 @@ def mg(n):
 # BY NAME (see Kernel.kcall)
 SIGS = {}      # lean name -> dict(params=[(name, type)], roots=[(name, type)], ret=type, fuel=bool, spec=spec, pyargs=[python parameter names])
 KM = {}        # (python class, method) -> lean name, for the kernels whose spec says `p2=True`
-VALUE_CLASS = {"scaffold": "Scaffold"}                        # immutable-by-use value objects whose methods may be translated kernels taking `self`
+VALUE_CLASS = {"scaffold": "Scaffold", "frag": "Fragment"}                        # immutable-by-use value objects whose methods may be translated kernels taking `self`
 REF_CLASS = {"gref": "ChrGroup", "aref": "Assembly"}       # reference types whose objects live in an arena: class of the object
 SINK_CLASSES = ("TerminalTable",)                            # report objects: only "was an error marked" is kept (type `tabres`)
 
@@ -406,6 +406,8 @@ def assigned(stmts):
                 r = root_of(n.func.value)
                 if r:
                     add(r)
+            if isinstance(n, ast.Call) and isinstance(n.func, ast.Attribute) and n.func.attr == "reverse" and not n.args:
+                add("nextOid")
             if isinstance(n, ast.Call) and isinstance(n.func, ast.Name) and n.func.id == "ChrGroup":
                 add("heap_g")
             if isinstance(n, ast.Call) and isinstance(n.func, ast.Name) and n.func.id == "Assembly":
@@ -1404,6 +1406,16 @@ class Kernel:
             ot = self.coerce(*kw["original_tags"], O(L("str")))
             # `Scaffold.__init__`: `str(name)`, rows copied (`[*rows]`, or `[]` when falsy — the same list), tag/haplotype None, rank 0
             return f"({{ name := {nm}, rows := {rw}, originalName := {on}, originalTags := {ot} }} : Scaffold)", "scaffold"
+        if isinstance(f, ast.Attribute) and f.attr == "__class__" and isinstance(f.value, ast.Name) and env.get(f.value.id) == "scaffold" and len(e.args) == 1 \
+                and {k.arg for k in e.keywords} == {"original_name", "original_tags"} and self.spec.get("p2"):
+            # `self.__class__(…)` on a Scaffold: the class of the receiver is Scaffold here (OverlapResult, the subclass, has another constructor
+            # signature and would raise TypeError: `Scaffold.reverse` is only ever called on plain scaffolds — stated in the tie)
+            nm_, tn = self.expr(e.args[0], env, binds)
+            kw = {k.arg: self.expr(k.value, env, binds) for k in e.keywords}
+            if tn != "str":
+                raise Unsupported("Scaffold(...) name type")
+            return (f"({{ name := {nm_}, originalName := {self.coerce(*kw['original_name'], O('str'))}, "
+                    f"originalTags := {self.coerce(*kw['original_tags'], O(L('str')))} }} : Scaffold)"), "scaffold"
         if isinstance(f, ast.Attribute) and f.attr == "__class__" and isinstance(f.value, ast.Name) and len(e.args) == 5 and not e.keywords:
             base, tb = self.expr(f.value, env, binds)
             if tb != "frag":
@@ -1948,6 +1960,7 @@ class Kernel:
             if name in cspec.get("params", {}):
                 argvals[name] = self.kcoerce(t, ty, cspec["params"][name], env, binds)
         terms = []
+        bump_oid = False
         if sig["fuel"]:
             self.uses_fuel = True
             terms.append("fuel")
@@ -1972,6 +1985,10 @@ class Kernel:
                 tt, ty = self.expr(node, env, binds)
                 terms.append(self.kcoerce(tt, ty, t, env, binds))
                 continue
+            if n == "newOid" and "nextOid" in env:
+                terms.append("nextOid")           # the callee creates ONE new Fragment object: it gets the next free object id
+                bump_oid = True
+                continue
             if n in env:
                 terms.append(mg(n))
                 continue
@@ -1986,6 +2003,9 @@ class Kernel:
         rparts = [lean_ty(t) for _, t in outs] + ([lean_ty(sig["ret"])] if sig["ret"] != "unit" else [])
         rty = "Unit" if not rparts else " × ".join(rparts)
         binds.append((nm, "(" + " ".join([lean] + terms) + ")", ("raw", f"({rty})")))
+        if bump_oid:
+            binds.append(("nextOid", "(nextOid + 1)", "nat", "let"))
+            self.let_log.append("nextOid")
         n_parts = len(rparts)
 
         def proj(k):
@@ -3485,7 +3505,7 @@ IMP_KERNELS_2 = [
          params={"self": "scaffold", "othr": "scaffold", "gap": O("row")}, roots=["self"]),      # `gap`: whatever row object the caller passes (or None)
     dict(file="assembly/overlap_result.py", qual="OverlapResult.to_scaffold", lean="OverlapResult_to_scaffold",
          params={"self": "ovres"}, returns="scaffold"),
-    dict(file="assembly/fragment.py", qual="Fragment.reverse", lean="Fragment_reverse", params={"self": "frag"}, returns="frag"),
+    dict(file="assembly/fragment.py", qual="Fragment.reverse", lean="Fragment_reverse", params={"self": "frag"}, returns="frag", km=True),
     dict(file="assembly/format.py", qual="format_tpf", lean="format_tpf_imp",
          params={"file": "sink_str"}, attr_params={"asm.header": L("str"), "asm.scaffolds": L("scaffold")},
          opaque={"uppercase_and_underscore_to_dash": ([], "trtable", False)}),
@@ -3753,6 +3773,9 @@ P3_KERNELS = [
     dict(file="fasta/index.py", qual="FastaInfo.fai_row", lean="FastaInfo_fai_row", p2=True, params={"self": "fastainfo", "name": "str"}, returns="str"),
     dict(file="fasta/index.py", qual="FastaIndex.load_index", lean="FastaIndex_load_index", p2=True, text_lines={"idx": "fai_lines"},
          dict_roots={"self.index": ("dict", "str", "fastainfo")}, locals={"idx_dict": ("dict", "str", "fastainfo")}),
+    # reversal (C14): new Fragment objects get fresh object ids from the counter
+    dict(file="assembly/scaffold.py", qual="Scaffold.reverse", lean="Scaffold_reverse_imp", p2=True, oid_counter=True,
+         params={"self": "scaffold"}, returns="scaffold", locals={"new": "scaffold"}),
     dict(file="assembly/scaffold.py", qual="Scaffold.fragment_junction_set", lean="Scaffold_fragment_junction_set", p2=True,
          params={"self": "scaffold"}, returns=JSET, locals={"junctions": JSET}),
     dict(file="assembly/assembly.py", qual="Assembly.fragment_junctions_by_asm_prefix", lean="Assembly_fragment_junctions_by_asm_prefix", p2=True,
